@@ -29,6 +29,7 @@
 //     PhoneNumber: dashes nested closing chars plus unclosed digits_eq_<n> digits_range_<a>_<b>;  Email: invalid
 //     (the class is recognised from the default message text; any other text -> fail:unknown_message)
 #include "harness.h"
+#include <sstream>
 #include <algorithm>
 #include <cstring>
 #include <optional>
@@ -258,6 +259,8 @@ struct Map {
 
 std::string canonMsg(std::string m) { for (auto& c : m) if (c == ' ') c = '_'; return m; }
 
+static bool g_loadFromStream = false;   // val.loads: the same load through the std::istream overload of LoadObject
+
 template <class T>
 std::string run(uint32_t cap, const std::string& doc, MismatchedTypesPolicy policy) {
 	SerializationOptions options;
@@ -265,7 +268,8 @@ std::string run(uint32_t cap, const std::string& doc, MismatchedTypesPolicy poli
 	options.maxValidationErrors = cap;
 	T obj;
 	try {
-		LoadObject<MsgPackArchive>(obj, doc, options);
+		if (g_loadFromStream) { std::istringstream is(doc); LoadObject<MsgPackArchive>(obj, is, options); }
+		else LoadObject<MsgPackArchive>(obj, doc, options);
 		return "ok " + obj.state();
 	}
 	catch (const BadOp&) { throw; }
@@ -284,9 +288,10 @@ std::string run(uint32_t cap, const std::string& doc, MismatchedTypesPolicy poli
 	}
 }
 
-Handler loadOp(MismatchedTypesPolicy policy) {
-	return [policy](const Tokens& t) -> std::string {
+Handler loadOp(MismatchedTypesPolicy policy, bool fromStream = false) {
+	return [policy, fromStream](const Tokens& t) -> std::string {
 		if (t.size() != 5) throw BadOp("arity");
+		g_loadFromStream = fromStream;
 		const auto cap = static_cast<uint32_t>(std::stoul(t[2]));
 		parseConfig(t[3]);
 		std::string doc;
@@ -301,6 +306,7 @@ Handler loadOp(MismatchedTypesPolicy policy) {
 
 Register v1("val.load", loadOp(MismatchedTypesPolicy::Skip));
 Register v2("val.loadt", loadOp(MismatchedTypesPolicy::ThrowError));
+Register v3("val.loads", loadOp(MismatchedTypesPolicy::Skip, true));
 
 
 // ---- the text validators, called directly ----
